@@ -19,12 +19,14 @@ from hugr.ops import (
     Const,
     Custom,
     DataflowBlock,
+    DataflowOp,
     ExitBlock,
     FuncDecl,
     FuncDefn,
     Input,
     LoadConst,
     LoadFunc,
+    Op,
     Output,
     Tag,
     TailLoop,
@@ -58,8 +60,9 @@ class ModelExport:
         """Export the node with the given node id."""
         node_data = self.hugr[node]
 
-        inputs = [self.link_name(InPort(node, i)) for i in range(node_data._num_inps)]
-        outputs = [self.link_name(OutPort(node, i)) for i in range(node_data._num_outs)]
+        num_inputs, num_outputs = _num_value_ports(node_data.op)
+        inputs = [self.link_name(InPort(node, i)) for i in range(num_inputs)]
+        outputs = [self.link_name(OutPort(node, i)) for i in range(num_outputs)]
         meta = []
 
         # Export JSON metadata
@@ -556,6 +559,27 @@ class ModelExport:
                 return op.val.to_model()
             case op:
                 return None
+
+
+def _num_value_ports(op: Op) -> tuple[int, int]:
+    """The number of value input and output ports in the signature of an operation.
+
+    These are the ports that a node lists in the model. The static input of `Call`,
+    `LoadFunc` and `LoadConst` is not among them: the function or constant is
+    part of the node's operation instead. A basic block lists its control ports:
+    one input and one output per successor.
+    """
+    match op:
+        case DataflowBlock():
+            return 1, len(op.sum_ty.variant_rows)
+        case Call():
+            signature = op.instantiation
+        case DataflowOp():
+            signature = op.outer_signature()
+        case _:
+            return 0, 0
+
+    return len(signature.input), len(signature.output)
 
 
 def _mangle_name(node: Node, name: str) -> str:
